@@ -7,6 +7,7 @@ sys.path.insert(0, root)
 from harness import common
 props = sys.argv[1:] or [json.loads(l)["id"] for l in open(f"{root}/properties.jsonl")]
 lock = common.load_statement_lock()
+pinned = {}
 ok, log = common.lake_build()
 if not ok:
     sys.exit("lake build failed:\n" + log[-2000:])
@@ -20,5 +21,14 @@ for p in props:
     if missing:
         print(p, "could not print statements of", missing); continue
     lock[p] = {t: got[t] for t in mod.THEOREMS}
+    pinned[p] = lock[p]
     print(p, len(lock[p]), "theorems pinned")
-json.dump(lock, open(common.STATEMENTS_LOCK, "w"), indent=1, sort_keys=True)
+# several builders pin concurrently (and a pin takes minutes): re-read the file under a lock and update only our keys
+import fcntl
+with open(common.STATEMENTS_LOCK + ".flock", "w") as lk:
+    fcntl.flock(lk, fcntl.LOCK_EX)
+    cur = common.load_statement_lock()
+    cur.update(pinned)
+    tmp = common.STATEMENTS_LOCK + ".tmp"
+    json.dump(cur, open(tmp, "w"), indent=1, sort_keys=True)
+    os.replace(tmp, common.STATEMENTS_LOCK)
